@@ -191,3 +191,39 @@ func lemmaCompressRoundTripBytes(rec *Record) (err error) {
 //@   modifies rec.Payload.Flag, rec.Payload.Body, rec.Payload.Addr, rec.Payload.Cap, cmem.AllocRL.Size, cmem.AllocRL.MaxSize, cmem.AllocRL.Count, cmem.AllocRL.MaxCount, ghostFail()
 //@   ensures err == nil ==> rec.Payload.Flag == old(rec.Payload.Flag) && len(rec.Payload.Body) == old(len(rec.Payload.Body))
 //@   ensures err == nil ==> forall(0, old(len(rec.Payload.Body)), func(i int) bool { return rec.Payload.Body[i] == old(rec.Payload.Body[i]) })
+
+// ---------- 6. the read path of a chunk (C12: a returned record is charged exactly once, with the
+// capacity it finally has) ----------
+
+//@ func (dc *dataChunk) GetRecordByOffsetInBuffer
+//@   props C12
+//@   ints bv
+//@   assumed lookup in the chunk's write buffer (sort.Search over the buffered records): a copy of the record, charged to GetData with its capacity; buffered records were compressed by TryCompress, so a compressed one has a valid header
+//@   modifies cmem.DBRL.GetData.Size, cmem.DBRL.GetData.MaxSize, cmem.DBRL.GetData.Count, cmem.DBRL.GetData.MaxCount, cmem.AllocRL.Size, cmem.AllocRL.MaxSize, cmem.AllocRL.Count, cmem.AllocRL.MaxCount, ghostFail()
+//@   ensures res != nil ==> err == nil && fresh(res) && res.Payload != nil && fresh(res.Payload) && len(res.Payload.Body) < 1<<31 && res.Payload.Cap >= 0 && res.Payload.Cap < 1<<31
+//@   ensures res != nil && specIsCompressed(res.Payload.Flag) ==> quicklz.SpecHeaderOK(res.Payload.Body) && quicklz.SpecSizeD(res.Payload.Body) < 1<<31
+//@   ensures res != nil ==> cmem.DBRL.GetData.Count == old(cmem.DBRL.GetData.Count)+1 && cmem.DBRL.GetData.Size == old(cmem.DBRL.GetData.Size)+int64(res.Payload.Cap)
+//@   ensures res == nil ==> cmem.DBRL.GetData.Count == old(cmem.DBRL.GetData.Count) && cmem.DBRL.GetData.Size == old(cmem.DBRL.GetData.Size)
+
+//@ func readRecordAtPath
+//@   props C12
+//@   ints bv
+//@   assumed opens the chunk's file and reads the record at the offset (readRecordAt, verified under C09 over mathematical integers): the record is charged to GetData with its capacity; a stored record with the compress flag was written by TryCompress and has a valid header
+//@   modifies cmem.DBRL.GetData.Size, cmem.DBRL.GetData.MaxSize, cmem.DBRL.GetData.Count, cmem.DBRL.GetData.MaxCount, cmem.AllocRL.Size, cmem.AllocRL.MaxSize, cmem.AllocRL.Count, cmem.AllocRL.MaxCount, ghostFail()
+//@   ensures result1 != nil ==> result0 == nil
+//@   ensures result1 == nil ==> result0 != nil && fresh(result0) && result0.rec != nil && fresh(result0.rec) && result0.rec.Payload != nil && fresh(result0.rec.Payload) && len(result0.rec.Payload.Body) < 1<<31 && result0.rec.Payload.Cap >= 0 && result0.rec.Payload.Cap < 1<<31
+//@   ensures result1 == nil && specIsCompressed(result0.rec.Payload.Flag) ==> quicklz.SpecHeaderOK(result0.rec.Payload.Body) && quicklz.SpecSizeD(result0.rec.Payload.Body) < 1<<31
+//@   ensures result1 == nil ==> cmem.DBRL.GetData.Count == old(cmem.DBRL.GetData.Count)+1 && cmem.DBRL.GetData.Size == old(cmem.DBRL.GetData.Size)+int64(result0.rec.Payload.Cap)
+//@   ensures result1 != nil ==> cmem.DBRL.GetData.Count == old(cmem.DBRL.GetData.Count) && cmem.DBRL.GetData.Size == old(cmem.DBRL.GetData.Size)
+
+// a record handed out is charged once, with the capacity it has after decompression (if the
+// decompression fails the record stays compressed and is charged with the decompressed size it
+// claimed - outside this clause)
+//@ func (dc *dataChunk) GetRecordByOffset
+//@   props C12 C10
+//@   ints bv
+//@   requires cmem.DBRL.GetData.Size >= 0 && cmem.DBRL.GetData.Size < 1<<60
+//@   modifies cmem.DBRL.GetData.Size, cmem.DBRL.GetData.MaxSize, cmem.DBRL.GetData.Count, cmem.DBRL.GetData.MaxCount, cmem.AllocRL.Size, cmem.AllocRL.MaxSize, cmem.AllocRL.Count, cmem.AllocRL.MaxCount, ghostFail()
+//@   ensures res != nil ==> res.Payload != nil && cmem.DBRL.GetData.Count == old(cmem.DBRL.GetData.Count)+1
+//@   ensures res != nil && !specIsCompressed(res.Payload.Flag) ==> cmem.DBRL.GetData.Size == old(cmem.DBRL.GetData.Size)+int64(res.Payload.Cap)
+//@   ensures res == nil ==> cmem.DBRL.GetData.Count == old(cmem.DBRL.GetData.Count) && cmem.DBRL.GetData.Size == old(cmem.DBRL.GetData.Size)
